@@ -708,12 +708,18 @@ DefTargets == <<"argsMapped0", "argsMapped1", "argsUnmapped2", "argsLength", "ar
                 "errMessage", "errNew", "dateNew", "objExisting", "objNew", "frozenExisting", "sealedExisting", "nonExtNew",
                 "accessorExisting", "nonConfigurableExisting", "globalUndefined", "mathPI",
                 "goMapSIKey", "goMapISKey", "goSliceIndex", "goSliceLength", "goStructField", "goFuncLength">>
+(* the targets on which the quick tier also runs the data <-> accessor conversion routes (thorough: all) *)
+DefConvTargets == {"objExisting", "objNew", "arrayIndex1", "argsMapped0", "strObjNew5", "fnPrototype", "regexpLastIndex", "errMessage",
+                   "accessorExisting", "nonConfigurableExisting", "sealedExisting", "goMapSIKey"}
 DefHost(t) == t \in {"goMapSIKey", "goMapISKey", "goSliceIndex", "goSliceLength", "goStructField", "goFuncLength"}
 Tri == <<"absent", "true", "false">>
 Descs == {[w |-> w, e |-> e, c |-> c, v |-> v, g |-> g, s |-> s] :
             w \in {"absent", "true", "false"}, e \in {"absent", "true", "false"}, c \in {"absent", "true", "false"},
             v \in {"absent", "present"}, g \in {"absent", "fn", "undef"}, s \in {"absent", "fn"}}
-DefRoutes == <<"defineProperty", "defineProperties", "twice">>
+(* "afterData" / "afterAccessor" / "afterAccessorUndef": the name is first made a configurable data property, an accessor *)
+(* property with a getter, an accessor property whose get and set are undefined - then the descriptor is applied         *)
+(* (data -> accessor and accessor -> data conversions, 8.12.9 step 9)                                                    *)
+DefRoutes == <<"defineProperty", "defineProperties", "twice", "afterData", "afterAccessor", "afterAccessorUndef">>
 DefExpect(route, target, d) ==
     LET accessor == d.g # "absent" \/ d.s # "absent"
         data == d.v # "absent" \/ d.w # "absent"
@@ -726,4 +732,28 @@ DefExpect(route, target, d) ==
           [] DefHost(target) -> AnyReply
           [] accessor /\ data -> OnlyError("TypeError")                 \* 8.10.5 step 9
           [] OTHER -> ValueOr({"TypeError"})
+-----------------------------------------------------------------------------
+(* Writes to bridged Go values (host objects, 8.6.2): [[Put]], [[Delete]],      *)
+(* [[DefineOwnProperty]] and Object.Set from Go with a value of every kind.     *)
+(* What the write means is C16's business; here it returns a value or an error. *)
+BwTargets == <<"structInt", "structString", "structSlice", "structMap", "structUnknown", "structMethod",
+               "mapSIKey", "mapSINew", "mapISKey", "mapISBad", "mapSPKey", "mapSPNew",
+               "sliceIndex0", "sliceIndex9", "sliceLength", "sliceNeg", "arrayIndex0", "arrayIndex9", "arrayLength",
+               "sliceNamed", "arrayNamed", "nestedSliceLength", "funcProp">>
+BwRoutes == <<"put", "goSet", "defineValue", "delete", "putLengthBig">>
+(* resource exclusion: a bridged slice really grows to the requested length; 2^32 - 1 elements are tens of gigabytes *)
+BwHeavy(route, target, val) == target \in {"sliceLength", "nestedSliceLength"} /\ val = "u32max" /\ route # "putLengthBig"
+BwExpect(route, target, val) ==
+    LET e1 == \* Value.toReflectValue ends in panic(fmt.Errorf("invalid conversion ...")) for a value that has no conversion to a pointer type
+              IF D("D02_toreflectvalue_invalid_conversion_panics") /\ target \in {"mapSPKey", "mapSPNew"} THEN Widen(AnyReply, {GoErr}, FALSE, {}) ELSE AnyReply
+        e2 == \* goSliceObject.setLength: negative -> reflect panics; beyond what can be allocated -> runtime.plainError
+              IF D("D02_goslice_setlength_out_of_range_panics") /\ target \in {"sliceLength", "nestedSliceLength"}
+              THEN Widen(e1, {"string", "runtime.plainError", "*reflect.ValueError"}, FALSE, {}) ELSE e1
+        e3 == \* goSliceDelete / goArrayDelete hand a name that is not an index to obj.delete, which dispatches to themselves again
+              IF D("D02_goslice_delete_named_property_unbounded_recursion") /\ target \in {"sliceNeg", "sliceNamed", "arrayNamed"} /\ route = "delete"
+              THEN Exp(FALSE, {}, {}, FALSE, TRUE, {}) ELSE e2
+        e4 == \* a String value kept as UTF-16 code units is handed to reflect as []uint16 where a Go string is expected
+              IF D("D02_utf16_string_to_go_string_reflect_panics") /\ target = "structString" /\ val = "loneSurr" /\ route # "putLengthBig"
+              THEN Widen(e3, {"string", "*reflect.ValueError"}, FALSE, {}) ELSE e3
+    IN  e4
 =============================================================================
